@@ -104,8 +104,36 @@ def colour_sentinel(ctx):
     r = ctx.rule("PAR-COLOUR-SENTINEL", "the colour map is initialised with a negative value, so elements outside the support and elements not coloured yet never share a colour class with a coloured element", 1)
     fn = ctx.repo.mod(SP).fn("FunctionSpace._compute_color_map")
     init = [s for s in fn.body if isinstance(s, ast.Assign) and unparse(s.targets[0]) == "self._color_map"]
-    s = _sentinel(init[0].value) if len(init) == 1 else None
+    s = _sentinel(init[0].value, fn) if len(init) == 1 else None
     r.check(s is not None and s < 0, "_compute_color_map", SP, "FunctionSpace._compute_color_map", fn.lineno, "colour map sentinel", "the colour map is initialised with %s: unsupported / uncoloured elements carry a valid colour and are grouped with the elements of that colour" % s)
+    # the colouring a space assembles with is computed by this call from this space's own dof map: it is not taken from
+    # (or shared through) process-wide state, and no path leaves the function before the greedy loop has run
+    from . import state
+
+    r2 = ctx.rule("PAR-COLOUR-OWN", "every space computes its own colouring: _compute_color_map reads and writes no module-level table, stores one freshly allocated array, and has no exit before the colouring loop", 1)
+    m = ctx.repo.mod(SP)
+    shared = sorted(set(state.module_state(m.tree)) & {n.id for n in ast.walk(fn) if isinstance(n, ast.Name)})
+    stores = [st for st in ast.walk(fn) if isinstance(st, ast.Assign) and any(unparse(t) == "self._color_map" for t in st.targets)]
+    loops = [st for st in fn.body if isinstance(st, ast.For)]
+    early = [st.lineno for st in ast.walk(fn) if isinstance(st, ast.Return) and (not loops or st.lineno < loops[0].lineno)]
+    probs = []
+    memo_ok = False
+    if shared:
+        # a memo table is harmless exactly when its key determines the dof map the colouring is computed from (the
+        # dependency analysis of C18's FX-PROCESS-STATE decides that)
+        sites = [w for w in state.writes(m.tree) if w[0] is fn and w[5] is not None]
+        gaps = sorted({g for w in sites for g in state.memo_key_gap(m.tree, fn, w[1], w[5], w[6])})
+        if sites and not gaps:
+            memo_ok = True
+        else:
+            probs.append("the function uses the module-level table(s) %s whose key does not determine %s: a colouring computed for one space (one dof map) is handed to another space" % (shared, gaps or "the stored value"))
+    if memo_ok:
+        pass
+    elif len(stores) != 1 or not isinstance(stores[0].value, (ast.Call, ast.UnaryOp, ast.BinOp)):
+        probs.append("self._color_map is assigned %d time(s) (%s), expected one fresh allocation" % (len(stores), [unparse(st.value)[:40] for st in stores]))
+    if early and not memo_ok:
+        probs.append("the function can return (line %s) before the colouring loop" % early)
+    r2.check(not probs, "_compute_color_map", SP, "FunctionSpace._compute_color_map", fn.lineno, "colouring computed per space", "; ".join(probs))
 
 
 def projection_dtype(ctx):
